@@ -6,6 +6,7 @@
 #include "cmd_sym.h"
 #include "cmd_sim.h"
 #include "cmd_mem.h"
+#include "cmd_fileio.h"
 
 static void register_all()
 {
@@ -15,4 +16,5 @@ static void register_all()
   register_sym();
   register_sim();
   register_mem();
+  register_fileio();
 }
